@@ -530,6 +530,25 @@ pub fn do_check(
     obs
 }
 
+pub fn do_bench(
+    project: &mut Project<Capture>,
+    capture: &Capture,
+    root: &Path,
+    opts: &Opts,
+    max_size: usize,
+) -> CheckObs {
+    capture.tests.borrow_mut().clear();
+    let res = project.benchmark(None, false, opts.seed, max_size, opts.tracing(), false, opts.env.clone());
+    let _ = project.warnings();
+    let mut obs = CheckObs::default();
+    match res {
+        Ok(()) => obs.ok = true,
+        Err(errs) => obs.errors = error_names(root, &errs),
+    }
+    obs.tests = capture.tests.borrow().clone();
+    obs
+}
+
 /// Run `f` inside a dedicated rayon pool of `width` threads named sim-rayon-<i> (fresh threads ⇒
 /// fresh hash keys under the current epoch). `f` runs on a pool thread, so anything it builds may
 /// hold `Rc`s as long as what it returns is `Send`.
